@@ -178,6 +178,36 @@ Theorem c09_answer :
 Proof. exact OnceProofs.dispatch_answer. Qed.
 Print Assumptions c09_answer.
 
+(* The reply delivered is exactly the answer's payload: the outcome of a RESPONSE is a function of the
+   message alone (the model's completion carries decode(buffer) = OReply (m_buf m)); nothing the reply
+   object held before the call can show through (the code must Parse, i.e. clear first, not Merge). *)
+Theorem c09_reply_is_payload :
+  forall (m : msg) (o : outcome),
+  resp_outcome m = Some o -> m_type m = RESPONSE -> o = OReply (m_buf m).
+Proof. exact reply_is_payload. Qed.
+Print Assumptions c09_reply_is_payload.
+
+(* Reply writes that fail (peer gone, send buffer full), also in the middle of serving queued requests:
+   the failed SendMsg writes nothing, releases the descriptor and runs the close handler exactly at that
+   moment (and does nothing if the descriptor was already released or closed); from then on
+   DescriptorReady does nothing at all, whatever is still readable.  (c09_frame_safe and c09_reply_ids
+   already quantify over histories with failing writes: OpChunk _ false, OpComplete _ _ false.) *)
+Theorem c09_send_failure :
+  forall (cl : bool) (r : rpc) (m : msg) (r' : rpc) (evs : list event) (b : bool),
+  send_msg cl false r m = (r', evs, b) ->
+  b = false /\ sends evs = [] /\
+  (dead r || cl = false -> dead r' = true /\ evs = [EvChanClose]) /\
+  (dead r || cl = true -> r' = r /\ evs = []).
+Proof. exact send_failure. Qed.
+Print Assumptions c09_send_failure.
+
+Theorem c09_dead_stops :
+  forall (decode : list N -> option msg) (method_kind : list N -> N) (req_ok : list N -> bool)
+         (service : list N -> list N -> option sres) (f : frame) (r : rpc) (bs : list N) (ok : bool),
+  dead r = true -> step decode method_kind req_ok service f r (OpChunk bs ok) = (f, r, []).
+Proof. exact dead_stops. Qed.
+Print Assumptions c09_dead_stops.
+
 (* A call whose request cannot be sent (Send fails, or the channel is already closed / released) is
    completed at once, exactly once, with "Failed to send request", and is not registered. *)
 Theorem c09_send_failed :
@@ -232,4 +262,14 @@ Example c09_example_reject :
   closed f = true /\ expected f = 0 /\ bufsz f = 2048 /\
   dispatched tr = [mkMsg 2 5 [] [5]] /\
   tr = [EvWrite 0 1 2048 2048; EvDispatch (mkMsg 2 5 [] [5]); EvClose].
+Proof. vm_compute. repeat split; reflexivity. Qed.
+
+(* serving side with a failing reply write: two requests are readable, the write of the first reply
+   fails: the close handler runs once, the second request is never dispatched *)
+Example c09_example_reply_write_fails :
+  let '(f, r, tr) := run ex_decode_req (fun _ => 1) (fun _ => true) (fun _ _ => Some (SReply [7]))
+                         init_frame init_rpc
+                         [OpChunk [1; 0; 0; 16; 5; 1; 0; 0; 16; 6] false; OpChunk [] false] in
+  dispatched tr = [mkMsg REQUEST 5 [69] [5]] /\ sends tr = [] /\ dead r = true /\
+  tr = [EvWrite 0 1 2048 2048; EvDispatch (mkMsg REQUEST 5 [69] [5]); EvService [69] [5]; EvChanClose].
 Proof. vm_compute. repeat split; reflexivity. Qed.
